@@ -47,6 +47,8 @@ def showAbort : Abort → String
   | .unexpectedOutput c o => s!"unexpectedOutput:{esc c}:{esc o}"
   | .writeMemUnexpected o => s!"writeMemUnexpected:{esc o}"
   | .writeMemGiveUp => "writeMemGiveUp"
+  | .loginFailed e => if e then "loginFailed:enable" else "loginFailed:login"
+  | .indexPanic => "indexPanic"
 
 def showRes {α} : Res α → String
   | .ok _ => "ok"
